@@ -11,8 +11,7 @@ Proof. induction s; simpl; auto. Qed.
 Lemma dec_enc_str s r : dec_str (enc_str s ++ r) = Some (s, r).
 Proof.
   unfold dec_str, enc_str. simpl. rewrite Nat2N.id.
-  assert (Nat.leb (length s) (length (s ++ r)) = true) by (apply Nat.leb_le; rewrite app_length; lia).
-  rewrite H, firstn_len_app, skipn_len_app. auto.
+  rewrite firstn_len_app, skipn_len_app, Nat.eqb_refl. auto.
 Qed.
 
 Lemma dec_enc_meta m r : dec_meta (enc_meta m ++ r) = Some (m, r).
